@@ -156,6 +156,9 @@ func runWorker(bin string, job *sim.Job, race bool, watchdogS int) *workerResult
 	if scn := sim.Scenarios[job.Prop]; scn != nil && scn.Instrument {
 		extra = append(extra, "VERIF_INSTRUMENTED=1")
 	}
+	if scn := sim.Scenarios[job.Prop]; scn != nil && scn.CLI {
+		extra = append(extra, "VERIF_CLI_BIN="+buildCLI())
+	}
 	if watchdogS > 0 {
 		extra = append(extra, "VERIF_WATCHDOG_S="+strconv.Itoa(watchdogS))
 	}
@@ -301,14 +304,20 @@ func main() {
 		if len(os.Args) < 4 {
 			die2("usage: simctl check <prop> <quick|thorough>")
 		}
-		os.Exit(check(os.Args[2], os.Args[3]))
+		code := check(os.Args[2], os.Args[3])
+		removeCLI()
+		os.Exit(code)
 	case "replay":
 		if len(os.Args) < 3 {
 			die2("usage: simctl replay <file>")
 		}
-		os.Exit(replay(os.Args[2]))
+		code := replay(os.Args[2])
+		removeCLI()
+		os.Exit(code)
 	case "selftest":
-		os.Exit(selftest(os.Args[2:]))
+		code := selftest(os.Args[2:])
+		removeCLI()
+		os.Exit(code)
 	case "list":
 		for _, id := range sim.ScenarioIds() {
 			fmt.Println(id)
